@@ -24,4 +24,8 @@ OrderOk(m, delivered) == delivered + 1 >= m
 MayPreempt(dist, block) == dist <= 2 * block
 \* (3) after the consumer abandons the iteration: the loader was disposed and nothing is read any more
 Released(disposals, readsAfter) == disposals >= 1 /\ readsAfter = 0
+\* (3) "releases the loader": what still refers to / survives of the loader once the generator has been dropped, with the
+\* cyclic garbage collector out of the picture (a loader kept alive by a reference cycle with its stream and buffers is
+\* not released, it is merely collectable some day): nothing
+NothingLeft(S) == S = {}
 =============================================================================
